@@ -121,48 +121,80 @@ enum Chunked {
     Bad(String),
 }
 
+fn hexval(b: u8) -> Option<u64> {
+    match b {
+        b'0'..=b'9' => Some((b - b'0') as u64),
+        b'a'..=b'f' => Some((b - b'a' + 10) as u64),
+        b'A'..=b'F' => Some((b - b'A' + 10) as u64),
+        _ => None,
+    }
+}
+
+/// position just after the first CRLF
+fn after_crlf(buf: &[u8]) -> Option<usize> {
+    find(buf, b"\r\n").map(|p| p + 2)
+}
+
 fn read_chunked(buf: &[u8]) -> Chunked {
     let mut pos = 0;
     let mut out = vec![];
     loop {
-        let nl = match find(&buf[pos..], b"\r\n") {
-            Some(n) => n,
-            None => return Chunked::Short(out),
-        };
-        let line = &buf[pos..pos + nl];
-        let hexpart = line.split(|&b| b == b';').next().unwrap();
-        let hs = String::from_utf8_lossy(hexpart).trim().to_string();
-        if hs.is_empty() || !hs.bytes().all(|b| b.is_ascii_hexdigit()) || hs.len() > 16 {
-            return Chunked::Bad(format!("bad chunk size line {:?}", String::from_utf8_lossy(line)));
+        // chunk-size = 1*HEXDIG
+        let mut n: u64 = 0;
+        let mut seen = false;
+        loop {
+            match buf.get(pos) {
+                None => return Chunked::Short(out),
+                Some(&b) => match hexval(b) {
+                    Some(d) => {
+                        n = n.wrapping_mul(16).wrapping_add(d);
+                        seen = true;
+                        pos += 1;
+                    }
+                    None => {
+                        if !seen {
+                            return Chunked::Bad("chunk size line without a hex digit".into());
+                        }
+                        break;
+                    }
+                },
+            }
         }
-        let n = u64::from_str_radix(&hs, 16).unwrap() as usize;
-        pos += nl + 2;
+        // [ chunk-ext ] CRLF
+        match &buf[pos..] {
+            [b'\r', b'\n', ..] => pos += 2,
+            [b';', ..] => match after_crlf(&buf[pos + 1..]) {
+                Some(k) => pos += 1 + k,
+                None => return Chunked::Short(out),
+            },
+            [b'\r'] => return Chunked::Short(out),
+            _ => return Chunked::Bad("garbage after chunk size".into()),
+        }
         if n == 0 {
-            // trailer section
+            // trailer-part CRLF
             loop {
-                let nl = match find(&buf[pos..], b"\r\n") {
-                    Some(n) => n,
-                    None => return Chunked::Short(out),
-                };
-                pos += nl + 2;
-                if nl == 0 {
-                    return Chunked::Done(out, pos);
+                match &buf[pos..] {
+                    [b'\r', b'\n', ..] => return Chunked::Done(out, pos + 2),
+                    [] | [b'\r'] => return Chunked::Short(out),
+                    rest => match after_crlf(rest) {
+                        Some(k) => pos += k,
+                        None => return Chunked::Short(out),
+                    },
                 }
             }
         }
-        if buf.len() < pos + n {
+        let n = n as usize;
+        if buf.len() - pos < n {
             out.extend_from_slice(&buf[pos..]);
             return Chunked::Short(out);
         }
         out.extend_from_slice(&buf[pos..pos + n]);
         pos += n;
-        if buf.len() < pos + 2 {
-            return Chunked::Short(out);
+        match &buf[pos..] {
+            [b'\r', b'\n', ..] => pos += 2,
+            [] | [b'\r'] => return Chunked::Short(out),
+            _ => return Chunked::Bad("chunk data not followed by CRLF".into()),
         }
-        if &buf[pos..pos + 2] != b"\r\n" {
-            return Chunked::Bad("chunk data not followed by CRLF".into());
-        }
-        pos += 2;
     }
 }
 
